@@ -2024,7 +2024,10 @@ int EGLPNUM_TYPENAME_ILLlib_chgsense (
 			qslp->sense[rowlist[i]] = 'R';
 			EGLPNUM_TYPENAME_EGlpNumZero(qslp->lower[j]);
 			EGLPNUM_TYPENAME_EGlpNumZero(qslp->upper[j]);
+			/* as in ILLlib_addrow and ILLlp_add_logicals: a.x - s = rhs with
+			 * 0 <= s <= range, i.e. rhs <= a.x <= rhs + range */
 			EGLPNUM_TYPENAME_EGlpNumOne(A->matval[k]);
+			EGLPNUM_TYPENAME_EGlpNumSign(A->matval[k]);
 			break;
 		case 'E':									/* Artificial */
 			qslp->sense[rowlist[i]] = 'E';
